@@ -91,9 +91,10 @@ theorem fmla_reads (p : PC) (value rgce : Bytes) (hv : value.length = 8) (hg : r
     (hr : p.row < 65536) (hc : p.col < 65536) (hx : p.xf < 65536) :
     (fmlaData p value rgce).length = 22 + rgce.length ∧ u16At (fmlaData p value rgce) 0 = p.row ∧
     u16At (fmlaData p value rgce) 2 = p.col ∧ u16At (fmlaData p value rgce) 20 = rgce.length ∧
-    (∀ i, i < 8 → byteAt (fmlaData p value rgce) (6 + i) = byteAt value i) := by
-  obtain ⟨h0, h2, _, hl⟩ := hdr16 p (value ++ (le16 0 ++ (le32 0 ++ (le16 rgce.length ++ rgce)))) hr hc hx
-  refine ⟨?_, h0, h2, ?_, ?_⟩
+    (∀ i, i < 8 → byteAt (fmlaData p value rgce) (6 + i) = byteAt value i) ∧
+    u16At (fmlaData p value rgce) 4 = p.xf := by
+  obtain ⟨h0, h2, h4, hl⟩ := hdr16 p (value ++ (le16 0 ++ (le32 0 ++ (le16 rgce.length ++ rgce)))) hr hc hx
+  refine ⟨?_, h0, h2, ?_, ?_, h4⟩
   · rw [fmlaData, hl]; simp [hv]; omega
   · rw [fmlaData, u16At_append_right _ _ _ (by simp [cellHdr_length]), cellHdr_length,
       u16At_append_right _ _ _ (by omega), hv, u16At_append_right _ _ _ (by simp), le16_length,
@@ -119,15 +120,15 @@ theorem step_formula_num (env : Env) (st : St) (p : PC) (x : Nat) (rgce : Bytes)
     (hr : p.row < 65536) (hc : p.col < 65536) (hxf : p.xf < 65536) (hx : x < 18446744073709551616)
     (hn : x / 281474976710656 ≠ 65535) :
     step env st ⟨0x0006, fmlaData p (le64 x) rgce, []⟩ =
-      .ok { cells := st.cells ++ [(p.row, p.col, .float x)], fmla := (p.row, p.col) } := by
-  obtain ⟨hl, h0, h2, h20, hb⟩ := fmla_reads p (le64 x) rgce rfl hg hr hc hxf
+      .ok { cells := st.cells ++ [(p.row, p.col, fmtF64 x env.fmts[p.xf]? env.is1904)], fmla := (p.row, p.col) } := by
+  obtain ⟨hl, h0, h2, h20, hb, h4⟩ := fmla_reads p (le64 x) rgce rfl hg hr hc hxf
   have b12 := hb 6 (by omega); have b13 := hb 7 (by omega)
   rw [byteAt_le64_6] at b12; rw [byteAt_le64_7] at b13
   have hne : ¬ (byteAt (fmlaData p (le64 x) rgce) 12 = 0xFF ∧ byteAt (fmlaData p (le64 x) rgce) 13 = 0xFF) := by
     rw [show (12 : Nat) = 6 + 6 from rfl, show (13 : Nat) = 6 + 7 from rfl, b12, b13]; omega
   have hlt : ¬ (22 + rgce.length < 20) := by omega
   have hlt2 : ¬ (22 + rgce.length < 22) := by omega
-  simp [step, hl, h0, h2, h20, parseFormulaValue, hne, u64At_fmla p x rgce hx, hlt]
+  simp [step, hl, h0, h2, h20, h4, parseFormulaValue, hne, u64At_fmla p x rgce hx, hlt, typeCached]
 
 theorem special_bytes (t b : Nat) (ht : t < 256) (hb : b < 256) :
     byteAt (special t b) 0 = t ∧ byteAt (special t b) 2 = b ∧ byteAt (special t b) 6 = 0xFF ∧
@@ -141,30 +142,30 @@ theorem step_formula_special (env : Env) (st : St) (p : PC) (t b : Nat) (rgce : 
       else if t = 1 then .ok { cells := st.cells ++ [(p.row, p.col, .bool (b != 0))], fmla := (p.row, p.col) }
       else if t = 2 then
         match parseErr b with
-        | .ok v => .ok { cells := st.cells ++ [(p.row, p.col, v)], fmla := (p.row, p.col) }
+        | .ok v => .ok { cells := st.cells ++ [(p.row, p.col, typeCached env p.xf v)], fmla := (p.row, p.col) }
         | .err e => .err e
         | .panic s => .panic s
         | .outOfFuel => .outOfFuel
       else if t = 3 then .ok { cells := st.cells ++ [(p.row, p.col, .str [])], fmla := (p.row, p.col) }
       else .err "Unrecognized:error" := by
   obtain ⟨s0, s2, s6, s7, sl⟩ := special_bytes t b ht hb
-  obtain ⟨hl, h0, h2, h20, hbb⟩ := fmla_reads p (special t b) rgce sl hg hr hc hxf
+  obtain ⟨hl, h0, h2, h20, hbb, h4⟩ := fmla_reads p (special t b) rgce sl hg hr hc hxf
   have b6 := hbb 0 (by omega); have b8 := hbb 2 (by omega); have b12 := hbb 6 (by omega); have b13 := hbb 7 (by omega)
   rw [s0] at b6; rw [s2] at b8; rw [s6] at b12; rw [s7] at b13
   simp only [Nat.add_zero] at b6
   have hlt : ¬ (22 + rgce.length < 20) := by omega
   have hlt2 : ¬ (22 + rgce.length < 22) := by omega
-  simp only [step, hl, h0, h2, h20, parseFormulaValue, b6, b8,
+  simp only [step, hl, h0, h2, h20, h4, parseFormulaValue, b6, b8,
     show byteAt (fmlaData p (special t b) rgce) 12 = 255 from b12,
     show byteAt (fmlaData p (special t b) rgce) 13 = 255 from b13]
   by_cases e0 : t = 0
   · simp [e0, hlt]
   · by_cases e1 : t = 1
-    · simp [e1, hlt]
+    · simp [e1, hlt, typeCached]
     · by_cases e2 : t = 2
       · simp [e2, hlt]; cases parseErr b <;> simp
       · by_cases e3 : t = 3
-        · simp [e3, hlt]
+        · simp [e3, hlt, typeCached]
         · simp [e0, e1, e2, e3, hlt]
 
 /-! ### MULRK -/
